@@ -1085,6 +1085,209 @@ Proof.
       * rewrite is_prefix_app_same, NP. apply (HF r c r'); [right; assumption|assumption].
 Qed.
 
+(* ================================================================== *)
+(* the node list of a tree is sound and complete w.r.t. lookup           *)
+
+Lemma nodes_dir_flat pre ch :
+  nodes pre (Dir ch)
+  = flat_map (fun nt => (pre ++ [fst nt], snd nt) :: nodes (pre ++ [fst nt]) (snd nt)) ch.
+Proof.
+  induction ch as [|[n c] ch IH]; [reflexivity|]. rewrite nodes_dir_cons, IH. reflexivity.
+Qed.
+
+Lemma nodes_sound src : forall pre r t,
+  wf_tree src -> In (r, t) (nodes pre src) ->
+  exists r', r = pre ++ r' /\ r' <> [] /\ lookup src r' = Some t.
+Proof.
+  induction src as [c|ch IH] using tree_ind2; intros pre r t W I; [destruct I|].
+  rewrite nodes_dir_flat in I. apply in_flat_map in I as ([n c] & Ic & I). cbn [fst snd] in I.
+  pose proof W as W0. apply wf_tree_dir in W as [ND F].
+  pose proof (assoc_NoDup_In ch n c ND Ic) as A.
+  destruct I as [E|I].
+  - inversion E; subst. exists [n]. repeat split; [discriminate|]. simpl. rewrite A. reflexivity.
+  - rewrite Forall_forall in IH. specialize (IH (n, c) Ic). cbn [snd] in IH.
+    destruct (IH (pre ++ [n]) r t) as (r' & -> & Hr & L); auto.
+    + eapply wf_child; eauto.
+    + exists (n :: r'). rewrite <- app_assoc. repeat split; [discriminate|]. simpl. rewrite A. exact L.
+Qed.
+
+Lemma nodes_complete src : forall pre r' t,
+  r' <> [] -> lookup src r' = Some t -> In (pre ++ r', t) (nodes pre src).
+Proof.
+  induction src as [c|ch IH] using tree_ind2; intros pre r' t Hr L.
+  - destruct r'; [congruence|discriminate].
+  - destruct r' as [|n r'']; [congruence|]. simpl in L.
+    destruct (assoc n ch) as [c|] eqn:A; [|discriminate].
+    pose proof (assoc_In_pair _ _ _ A) as Ic.
+    rewrite nodes_dir_flat. apply in_flat_map. exists (n, c). split; [assumption|]. cbn [fst snd].
+    destruct r'' as [|m r''].
+    + left. simpl in L. inversion L; subst. reflexivity.
+    + right. rewrite Forall_forall in IH. specialize (IH (n, c) Ic). cbn [snd] in IH.
+      replace (pre ++ n :: m :: r'') with ((pre ++ [n]) ++ m :: r'') by (rewrite <- app_assoc; reflexivity).
+      apply IH; [discriminate|assumption].
+Qed.
+
+(* ================================================================== *)
+(* no conflict between the source and what is at the destination         *)
+
+Definition compat (fs : tree) (A : list name) (src : tree) : Prop :=
+  no_file_on fs A /\
+  forall r t, lookup src r = Some t ->
+    match t with
+    | Dir _ => forall c, lookup fs (A ++ r) <> Some (File c)
+    | File _ => forall ch, lookup fs (A ++ r) <> Some (Dir ch)
+    end.
+
+(* the documented result, path by path: below A the source; the prefixes of A are directories;
+   everything else is what it was *)
+Definition placed (fs : tree) (A : list name) (src : tree) (q : list name) : option entry :=
+  match strip_prefix A q with
+  | Some r => match look src r with Some e => Some e | None => look fs q end
+  | None => if is_prefix q A then Some EDir else look fs q
+  end.
+
+Lemma run_ok_intro A : forall ops fs,
+  (forall l op rest, ops = l ++ op :: rest -> op_ok A (fold_left (sem_op A) l fs) op) ->
+  run_ok A fs ops.
+Proof.
+  induction ops as [|a ops IH]; intros fs H; simpl; [exact Logic.I|]. split.
+  - apply (H [] a ops eq_refl).
+  - apply IH. intros l op rest E. apply (H (a :: l) op rest). rewrite E. reflexivity.
+Qed.
+
+Lemma is_prefix_removelast (q X : list name) :
+  X <> [] -> is_prefix q (removelast X) = true -> is_prefix q X = true /\ q <> X.
+Proof.
+  intros HX P. destruct (exists_last HX) as (x & n & ->). rewrite removelast_last in P.
+  split.
+  - eapply is_prefix_trans; [exact P|apply is_prefix_app].
+  - intros ->. rewrite is_prefix_snoc_self in P. discriminate.
+Qed.
+
+Section UploadDir.
+  Variables (fs : tree) (A : list name) (ch : list (name * tree)).
+  Let src := Dir ch.
+  Let S := ensure_dir fs A.
+  Variable ops : list (list name * tree).
+  Hypothesis W : wf_tree src.
+  Hypothesis C : compat fs A src.
+  Hypothesis SND : sound src ops.
+  Hypothesis CMP : forall r t, r <> [] -> lookup src r = Some t -> In (r, t) ops.
+
+  Lemma S_prefixes q : is_prefix q A = true -> look S q = Some EDir.
+  Proof. intro P. unfold S. rewrite look_ensure_dir, P. reflexivity. Qed.
+
+  Lemma S_below r : r <> [] -> look S (A ++ r) = look fs (A ++ r).
+  Proof.
+    intro Hr. unfold S. rewrite look_ensure_dir. destruct r as [|m r]; [congruence|].
+    rewrite is_prefix_longer. reflexivity.
+  Qed.
+
+  Lemma S_below_file r c r' : In (r, File c) ops -> r' <> [] -> look S (A ++ r ++ r') = None.
+  Proof.
+    intros I Hr'. destruct (SND _ _ I) as [Hr L].
+    rewrite S_below by (destruct r; [congruence|discriminate]).
+    destruct C as [_ C2]. specialize (C2 r (File c) L). cbn in C2.
+    rewrite app_assoc. rewrite look_app. destruct (lookup fs (A ++ r)) as [[c0|ch0]|] eqn:E; auto.
+    - apply look_file_below. assumption.
+    - exfalso. eapply C2; reflexivity.
+  Qed.
+
+  Lemma sound_sub l x rest : ops = l ++ x :: rest -> sound src l.
+  Proof. intros E r t I. apply SND. rewrite E. apply in_or_app. left; assumption. Qed.
+
+  Lemma view_of_prefix l x rest q :
+    ops = l ++ x :: rest ->
+    look (fold_left (sem_op A) l S) q =
+    match strip_prefix A q with
+    | Some r => if covered l r then look src r else look S q
+    | None => look S q
+    end.
+  Proof.
+    intro E. apply fold_view.
+    - eapply sound_sub; eauto.
+    - apply S_prefixes.
+    - intros r c r' I. apply (S_below_file r c r'). rewrite E. apply in_or_app. left; assumption.
+  Qed.
+
+  (* in every intermediate state, no prefix of a node's path is a file (the node itself excepted
+     when it is a file) *)
+  Lemma state_not_file l r1 t1 rest q c :
+    ops = l ++ (r1, t1) :: rest ->
+    is_prefix q (A ++ r1) = true ->
+    (q <> A ++ r1 \/ is_dir t1 = true) ->
+    lookup (fold_left (sem_op A) l S) q <> Some (File c).
+  Proof.
+    intros E P Hq L. apply look_file in L. rewrite (view_of_prefix l _ rest q E) in L.
+    assert (I1 : In (r1, t1) ops) by (rewrite E; apply in_or_app; right; left; reflexivity).
+    destruct (SND _ _ I1) as [Hr1 L1].
+    destruct (strip_prefix A q) as [r|] eqn:SP.
+    - apply strip_prefix_Some in SP. subst q. rewrite is_prefix_app_same in P.
+      assert (D : exists chr, lookup src r = Some (Dir chr)).
+      { destruct (list_eq_dec (list_eq_dec Z.eq_dec) r r1) as [->|N].
+        - destruct Hq as [Hq|Hq]; [congruence|]. destruct t1; [discriminate|eauto].
+        - apply look_dir. eapply sound_prefix_dir; eauto. }
+      destruct D as [chr D].
+      destruct (covered l r).
+      + rewrite (look_node _ _ _ D) in L. discriminate.
+      + unfold S in L. rewrite look_ensure_dir in L. destruct (is_prefix (A ++ r) A); [discriminate|].
+        apply look_file in L. destruct C as [_ C2]. apply (C2 r _ D c). exact L.
+    - rewrite S_prefixes in L; [discriminate|]. eapply prefix_comparable; eauto.
+  Qed.
+
+  Lemma ops_run_ok : run_ok A S ops.
+  Proof.
+    apply run_ok_intro. intros l [r1 t1] rest E.
+    assert (I1 : In (r1, t1) ops) by (rewrite E; apply in_or_app; right; left; reflexivity).
+    destruct (SND _ _ I1) as [Hr1 L1].
+    unfold op_ok. cbn [fst snd]. destruct t1 as [c1|ch1].
+    - split.
+      + intros q P c. assert (HX : A ++ r1 <> []) by (destruct A; destruct r1; try discriminate; congruence).
+        destruct (is_prefix_removelast q _ HX P) as [P1 N1].
+        eapply state_not_file; eauto.
+      + intros chx L0. assert (L : look (fold_left (sem_op A) l S) (A ++ r1) = Some EDir) by (apply look_dir; eauto).
+        clear chx L0.
+        rewrite (view_of_prefix l _ rest _ E) in L. rewrite strip_prefix_app in L.
+        destruct (covered l r1).
+        * rewrite (look_node _ _ _ L1) in L. discriminate.
+        * rewrite S_below in L by assumption. apply look_dir in L as [chx L].
+          destruct C as [_ C2]. apply (C2 r1 _ L1 chx). exact L.
+    - intros q P c. eapply state_not_file; eauto.
+  Qed.
+
+  Lemma covered_complete r t : r <> [] -> lookup src r = Some t -> covered ops r = true.
+  Proof.
+    intros Hr L. unfold covered. apply existsb_exists. exists (r, t). split; [apply CMP; assumption|].
+    apply is_prefix_refl.
+  Qed.
+
+  Lemma covered_sound r : covered ops r = true -> exists e, look src r = Some e.
+  Proof.
+    unfold covered. intro H. apply existsb_exists in H as ([r1 t1] & I & P). cbn [fst] in P.
+    destruct (SND _ _ I) as [_ L1].
+    destruct (list_eq_dec (list_eq_dec Z.eq_dec) r r1) as [->|N].
+    - rewrite (look_node _ _ _ L1). eauto.
+    - exists EDir. eapply sound_prefix_dir; eauto.
+  Qed.
+
+  Lemma final_view q : look (fold_left (sem_op A) ops S) q = placed fs A src q.
+  Proof.
+    rewrite (fold_view A src ops S SND S_prefixes S_below_file). unfold placed.
+    destruct (strip_prefix A q) as [r|] eqn:SP.
+    - apply strip_prefix_Some in SP. subst q.
+      destruct (look src r) as [e|] eqn:LS.
+      + destruct r as [|m r].
+        * rewrite app_nil_r. rewrite S_prefixes by apply is_prefix_refl.
+          unfold src in LS. cbn in LS. inversion LS. destruct (covered ops []); reflexivity.
+        * unfold look in LS. destruct (lookup src (m :: r)) as [t|] eqn:L; [|discriminate].
+          rewrite (covered_complete (m :: r) t); [reflexivity|discriminate|assumption].
+      + destruct (covered ops r) eqn:CV.
+        * apply covered_sound in CV as [e CV]. congruence.
+        * apply S_below. intros ->. unfold src in LS. cbn in LS. discriminate.
+    - unfold S. apply look_ensure_dir.
+  Qed.
+End UploadDir.
+
 (* names used by the witnesses: "foo", "x", "y", "a" *)
 Definition n_foo : name := [102; 111; 111].
 Definition n_x : name := [120].
